@@ -248,6 +248,7 @@ def stepLine (st : St) (ws : List String) (_impl : String) : St × Ans :=
       | _, _ => (st, bad)
   | ["deafen", name] => ({ st with deaf := name :: st.deaf }, { m := "ok" })
   | ["close", name] => apply st name .close true false (some name)
+  | ["closeheld", name, _watcher] => apply st name .close true false (some name)
   | ["disc", name] => apply st name .close true false (some name)
   | ["rawclose", name, _] => apply st name .close true false (some name)
   | "cutsend" :: name :: k :: inner =>
